@@ -78,6 +78,7 @@ class Repo:
         if not os.path.isdir(self.src):
             raise AnchorMissing(f"source directory {self.src} not found")
         self.modules: dict[str, Module] = {}
+        self.inlined: list[str] = []  # call sites at which a helper that is not in the recorded table was inlined (qv/core/inline.py)
         self.alpha_normalised: list[str] = []  # functions whose locals were renamed back to the recorded spelling (alpha-equivalent)
         self._load()
 
@@ -101,8 +102,12 @@ class Repo:
                     tree = ast.parse(source, filename=path)
                 except SyntaxError as exc:  # the tree must at least parse
                     raise AnalysisError(f"cannot parse {rel}: {exc}")
-                from .alpha import normalise_module
-                self.alpha_normalised.extend(f"{name}:{q}" for q in normalise_module(name, tree))
+                from .alpha import normalise_module, pinned_table
+                from .inline import inline_module
+                if pinned_table().get("__modules__", {}).get(name) != hashlib.sha256(source.encode()).hexdigest()[:20]:
+                    # only modules whose text differs from the recorded one can contain new helpers or renamed locals
+                    self.inlined.extend(f"{name}:{q}" for q in inline_module(name, tree))
+                    self.alpha_normalised.extend(f"{name}:{q}" for q in normalise_module(name, tree))
                 _set_parents(tree)
                 mod = Module(name=name, path=path, rel=rel, source=source, tree=tree)
                 self._index_imports(mod, is_pkg=fn == "__init__.py")
@@ -600,3 +605,29 @@ def stmts_in_order(fn: ast.AST) -> list[ast.stmt]:
 
     rec(fn.body)
     return out
+
+
+def inline_self_calls(repo: "Repo", cls_q: str, e: ast.AST, depth: int = 0) -> ast.AST:
+    """Expression `e` (fresh copy) with calls `self.h(args…)` replaced by the single return expression of method h of class `cls_q`
+    (parameters substituted), when h is a straight-line `return <expr>` helper.  Used to look through extracted one-line helpers."""
+    e = ast.parse(unparse(e), mode="eval").body
+    if depth > 3:
+        return e
+
+    class T(ast.NodeTransformer):
+        def visit_Call(self, c):
+            self.generic_visit(c)
+            if isinstance(c.func, ast.Attribute) and isinstance(c.func.value, ast.Name) and c.func.value.id in ("self", "cls") and not c.keywords and repo.has(f"{cls_q}.{c.func.attr}"):
+                _, h = repo.func(f"{cls_q}.{c.func.attr}")
+                body = [st for st in h.body if not (isinstance(st, ast.Expr) and isinstance(st.value, ast.Constant))]
+                ps = [a.arg for a in h.args.args if a.arg not in ("self", "cls")]
+                if len(body) == 1 and isinstance(body[0], ast.Return) and body[0].value is not None and len(ps) == len(c.args):
+                    sub = dict(zip(ps, c.args))
+                    r = ast.parse(unparse(body[0].value), mode="eval").body
+
+                    class S(ast.NodeTransformer):
+                        def visit_Name(self, n):
+                            return ast.parse(unparse(sub[n.id]), mode="eval").body if n.id in sub else n
+                    return inline_self_calls(repo, cls_q, S().visit(r), depth + 1)
+            return c
+    return T().visit(e)
